@@ -822,7 +822,7 @@ pub fn run(tier: Tier, seed: u64) -> ! {
     }
     between_matrix(&mut rep, &dev);
     zone_boundary_matrix(&mut rep, &dev);
-    let n: u64 = std::env::var("C08_CASES").ok().and_then(|s| s.parse().ok()).unwrap_or(tier.pick(5000, 150_000));
+    let n: u64 = std::env::var("C08_CASES").ok().and_then(|s| s.parse().ok()).unwrap_or(tier.pick(15_000, 150_000));
     let nbig: u64 = tier.pick(24, 2000);
     let th = threads();
     for out in run_parallel(n, th, |i| case(seed, i, false, &dev)) {
